@@ -132,7 +132,7 @@ def facts_path(backend="blst", profile="dev", repo=None, crate="blsful", lib_onl
             (f for f in os.listdir(fdir) if f.startswith(pref) and f.endswith(".json")),
             key=lambda f: os.path.getmtime(os.path.join(fdir, f)),
         )
-        for f in olds[:-6]:
+        for f in olds[:-48]:
             os.remove(os.path.join(fdir, f))
         sys.stderr.write("[extract] %s/%s in %.1fs -> %s\n" % (backend, profile, time.time() - t0, os.path.basename(out)))
     return out
